@@ -313,7 +313,24 @@ def consistency(rep):
         po, pa = kwarg(c, "pattern_orbits"), kwarg(c, "pattern_anchor")
         mo, ma = pmatch("$a.orbits", po), pmatch("$a.anchor_component", pa)
         if isinstance(a0, ast.Name) and mo and ma and mo["a"] == ma["a"]:
-            raw_src = [call_name(d_.value) for d_ in fdefs.get(a0.id, []) if d_.kind == "assign" and isinstance(d_.value, ast.Call)]
+            def _producers(name, depth=4):
+                """names of the calls that can produce the value of a local (through aliases, result variables of substituted helpers, conditional expressions)"""
+                out_, unknown = [], False
+                for d_ in fdefs.get(name, []):
+                    if d_.kind != "assign" or d_.value is None:
+                        unknown = True
+                        continue
+                    for leaf in if_leaves(d_.value):
+                        if isinstance(leaf, ast.Call):
+                            out_.append(call_name(leaf))
+                        elif isinstance(leaf, ast.Name) and depth > 0 and leaf.id != name:
+                            sub_, unk_ = _producers(leaf.id, depth - 1)
+                            out_ += sub_
+                            unknown = unknown or unk_
+                        else:
+                            unknown = True
+                return out_, unknown
+            raw_src, raw_unknown = _producers(a0.id)
             def _ctor(e):
                 # Automorphism(g) / AutoEst(g, ...) / AutoEst(g, ...).fit(), possibly as alternatives of a conditional expression
                 out_ = []
@@ -323,7 +340,7 @@ def consistency(rep):
                     out_.append(call_name(leaf) if isinstance(leaf, ast.Call) else "?")
                 return out_
             an_src = [n_ for d_ in fdefs.get(mo["a"], []) if d_.kind == "assign" and d_.value is not None for n_ in _ctor(d_.value)]
-            ok = bool(raw_src) and set(raw_src) <= {"get_mappings", "find_subgraph_mappings"} and len(raw_src) == len(fdefs.get(a0.id, [])) \
+            ok = bool(raw_src) and set(raw_src) <= {"get_mappings", "find_subgraph_mappings"} and not raw_unknown \
                 and bool(an_src) and set(an_src) <= {"Automorphism", "AutoEst"}
         rep.ob("O11.4", "SRC", fi, ok, c, "pruning receives the raw matches with the orbits and anchor of the same analysis object", node=c)
     srt = [c for c in walk_local(fi.node) if isinstance(c, ast.Call) and ((isinstance(c.func, ast.Name) and c.func.id == "sorted") or call_name(c) == "sort")]
